@@ -64,7 +64,8 @@ def impl_report(nodes):
             errs = []
             for e in ni.errors:
                 errs.append("InvalidNodeParameterError" if ni.invalid_parameters else
-                            ("PipelineConfigurationError" if "context_key" in e else "other:" + e[:40]))
+                            ("PipelineConfigurationError" if "context_key" in e else
+                             ("ValueError" if "duplicate parameter name" in e else "other:" + e[:40])))
             d["errors"] = sorted(set(errs))
             d.update(origins={}, created=[], suppressed=[], tin=None, tout=None)
         else:
@@ -155,14 +156,19 @@ def first_data_type(nodes):
     return None
 
 
+import re as _re
+_MISSING_ARG = _re.compile(r"missing \d+ required (positional|keyword-only) argument")
+
+
 def dynamic_oracles(ck, nodes, rep, req, insp, rng, counters):
     from semantiva.context_processors import ContextType
     from semantiva.pipeline import Payload, Pipeline
     t0 = first_data_type(nodes)
     data0 = None if t0 is None else (3 if t0 == "F" else [1, 2])
     base = {}
+    seq_keys = {"seq", "t_values"} | {sp[1] for n in nodes if n["k"] == "sweep" for _, sp in n["vars"] if sp[0] == "ctx"}
     for k in req:
-        base[k] = [1, 2] if k in ("seq", "t_values") else ("p.txt" if k == "path" else (1 if k == "divisor" else rng.randint(1, 4)))
+        base[k] = [1, 2] if k in seq_keys else ("p.txt" if k == "path" else (1 if k == "divisor" else rng.randint(1, 4)))
     variants = [dict(base)]
     extra = dict(base)
     for k in pg.KEYS:
@@ -184,6 +190,13 @@ def dynamic_oracles(ck, nodes, rep, req, insp, rng, counters):
         if exc is not None:
             st, cls = pg.classify(exc)
             idx = len(log.started) - 1
+            if cls == "TypeError" and _MISSING_ARG.search(str(exc)):
+                # the processor was called without one of its parameters: the parameter was not resolved although the
+                # configuration was accepted and every reported key supplied
+                replay["failure"] = [idx, "SCall", cls, str(exc)[:200]]
+                ck.fail_input("C02:accepted-but-fails-on-flow:SCall:parameter-not-passed",
+                              "inspection+validation accepted, required keys supplied, node %d is called without a parameter: %s" % (idx + 1, str(exc)[:160]), replay)
+                continue
             if st in ("SResolve", "SGate") or cls == "InvalidNodeParameterError":
                 if st == "SResolve":
                     import re
@@ -320,6 +333,11 @@ CORPUS = [
     [{"k": "src", "cfg": {"value": 1}}, {"k": "muldef"}, {"k": "mul"}, {"k": "delete", "a": "factor"}],
     [{"k": "src", "cfg": {"value": 1}}, {"k": "mul"}, {"k": "delete", "a": "factor"}, {"k": "muldef"}, {"k": "probe", "ckey": "factor"}],
     [{"k": "src", "cfg": {"value": 1}}, {"k": "muldef"}, {"k": "rename", "a": "factor", "b": "j"}],
+    # a sweep variable read from a context key spelled like an unbound parameter of the swept element (one name, two roles)
+    [{"k": "sweep", "elem": "src", "vars": [("v", ("ctx", "value"))], "exprs": [], "mode": "combinatorial", "broadcast": False}, {"k": "csum"}],
+    [{"k": "srcdef"}, {"k": "sweep", "elem": "mul", "vars": [("f", ("ctx", "factor"))], "exprs": [], "mode": "combinatorial", "broadcast": False}],
+    [{"k": "srcdef"}, {"k": "sweep", "elem": "mul", "vars": [("f", ("ctx", "factor")), ("g", ("ctx", "factor"))], "exprs": [("factor", ("var", "f"))],
+      "mode": "by_position", "broadcast": False}],
     # recreate after delete
     [{"k": "src", "cfg": {"value": 1}}, {"k": "delete", "a": "k"}, {"k": "probe", "ckey": "k"}, {"k": "rename", "a": "k", "b": "factor"}, {"k": "mul"}],
 ]
@@ -449,7 +467,7 @@ def _inspect_then_run(cfg, values, data0=None):
         res = Pipeline(cfg).process(Payload(pg.make_data(data0), ContextType(dict(initial))))
     except Exception as ex:  # noqa
         st, cls = pg.classify(ex)
-        if st in ("SResolve", "SGate") or cls == "InvalidNodeParameterError":
+        if st in ("SResolve", "SGate") or cls == "InvalidNodeParameterError" or (cls == "TypeError" and _MISSING_ARG.search(str(ex))):
             return ("accepted-but-fails-on-flow", "inspected and accepted, required keys %s supplied, the run of the same configuration object raises %s: %s" % (required, cls, str(ex)[:160]))
         return None
     appeared = set(res.context.to_dict()) - set(initial)
